@@ -31,15 +31,25 @@ impl<const BITS: usize, const LIMBS: usize> Encodable for Uint<BITS, LIMBS> {
         // fast paths, avoiding allocation due to `to_be_bytes_vec`
         match LIMBS {
             0 => return out.put_u8(EMPTY_STRING_CODE),
-            1 => return self.limbs[0].encode(out),
+            1 => {
+                #[cfg(feature = "recmo_uint_verif")]
+                crate::verif_hooks::hit(160);
+                return self.limbs[0].encode(out);
+            }
             #[allow(clippy::cast_lossless)]
-            2 => return (self.limbs[0] as u128 | ((self.limbs[1] as u128) << 64)).encode(out),
+            2 => {
+                #[cfg(feature = "recmo_uint_verif")]
+                crate::verif_hooks::hit(161);
+                return (self.limbs[0] as u128 | ((self.limbs[1] as u128) << 64)).encode(out);
+            }
             _ => {}
         }
 
         match self.bit_len() {
             0 => out.put_u8(EMPTY_STRING_CODE),
             1..=7 => {
+                #[cfg(feature = "recmo_uint_verif")]
+                crate::verif_hooks::hit(164);
                 #[allow(clippy::cast_possible_truncation)] // self < 128
                 out.put_u8(self.limbs[0] as u8);
             }
@@ -59,8 +69,12 @@ impl<const BITS: usize, const LIMBS: usize> Encodable for Uint<BITS, LIMBS> {
                 let leading_zero_bytes = Self::BYTES - (bits + 7) / 8;
                 let trimmed = &bytes[leading_zero_bytes..];
                 if bits > MAX_BITS {
+                    #[cfg(feature = "recmo_uint_verif")]
+                    crate::verif_hooks::hit(163);
                     trimmed.encode(out);
                 } else {
+                    #[cfg(feature = "recmo_uint_verif")]
+                    crate::verif_hooks::hit(162);
                     #[allow(clippy::cast_possible_truncation)] // bytes.len() < 56 < 256
                     out.put_u8(EMPTY_STRING_CODE + trimmed.len() as u8);
                     out.put_slice(trimmed);
@@ -87,10 +101,17 @@ impl<const BITS: usize, const LIMBS: usize> Decodable for Uint<BITS, LIMBS> {
         // To check this, we only need to check if the first byte is zero to make sure
         // there are no leading zeros
         if !bytes.is_empty() && bytes[0] == 0 {
+            #[cfg(feature = "recmo_uint_verif")]
+            crate::verif_hooks::hit(170);
             return Err(Error::LeadingZero);
         }
 
-        Self::try_from_be_slice(bytes).ok_or(Error::Overflow)
+        let value = Self::try_from_be_slice(bytes);
+        #[cfg(feature = "recmo_uint_verif")]
+        if value.is_none() {
+            crate::verif_hooks::hit(171);
+        }
+        value.ok_or(Error::Overflow)
     }
 }
 
